@@ -200,9 +200,19 @@ static int do_argv(const char *name, int argc, char **argv)
 static int do_status(const char *name, int argc, char **argv)
 {
     int code = argc > 1 ? atoi(argv[1]) : 0;
+    /* `vp_status sigN marker`: log, then die of signal N */
+    int sg = (argc > 1 && !strncmp(argv[1], "sig", 3)) ? atoi(argv[1] + 3) : 0;
     start_record(name, argc, argv);
-    bprintf(",\"code\":%d}", code);
+    bprintf(",\"code\":%d}", sg ? 128 + sg : code);
     flush_record();
+    if (sg > 0 && sg < 32) {
+        sigset_t one;
+        signal(sg, SIG_DFL);
+        sigemptyset(&one);
+        sigaddset(&one, sg);
+        sigprocmask(SIG_UNBLOCK, &one, NULL);
+        raise(sg);
+    }
     return code;
 }
 
